@@ -7,6 +7,7 @@ from .types import PT, INT, BOOL, EXT, NONE, STR, Opt, Seq, Set, Arr, Map, Tup
 from .values import (
     SV,
     ObjRef,
+    View,
     EnumVal,
     EnumClass,
     RecordClass,
@@ -63,9 +64,13 @@ class CallMixin:
 
     def eval_args(self, node, st, f=None):
         args = []
+        nstar = 0
         for a in node.args:
             if isinstance(a, ast.Starred):
                 v = self.eval(a.value, st)
+                if not self.spec_mode:
+                    st.env[f"star{nstar}"] = v  # ghost name for the temporary (used by before_call cuts)
+                nstar += 1
                 if isinstance(v, (tuple, list)):
                     args.extend(v)
                 else:
@@ -87,6 +92,9 @@ class CallMixin:
         sorts = node.args[1:]
         if len(sorts) != len(names):
             raise Unsupported("quantifier: one type per bound variable")
+        exp = self._expand_static_range(which, lam, names, sorts, st)
+        if exp is not None:
+            return exp
         st2 = st.fork()
         binders = []
         for n, sn in zip(names, sorts):
@@ -111,6 +119,57 @@ class CallMixin:
             self.spec_mode = saved
         q = smt.Forall if which == "forall" else smt.Exists
         return SV(q(binders, body, patterns=pats), BOOL)
+
+    def _expand_static_range(self, which, lam, names, sorts, st):
+        """forall i: 0 <= i < len(X) => B   /   exists i: 0 <= i < len(X) and B   with X a statically known tuple:
+        the finite conjunction / disjunction over i = 0 .. len(X)-1 (same meaning, no quantifier)."""
+        if len(names) != 1 or ast.unparse(sorts[0]) != "Int":
+            return None
+        i = names[0]
+        body = lam.body
+
+        def bounds(e):
+            # matches  0 <= i and i < len(NAME) [and rest...]  -> (NAME, rest list)
+            if not (isinstance(e, ast.BoolOp) and isinstance(e.op, ast.And) and len(e.values) >= 2):
+                return None
+            a, b = e.values[0], e.values[1]
+            if ast.unparse(a) != f"0 <= {i}":
+                return None
+            if not (isinstance(b, ast.Compare) and len(b.ops) == 1 and isinstance(b.ops[0], ast.Lt) and ast.unparse(b.left) == i
+                    and isinstance(b.comparators[0], ast.Call) and ast.unparse(b.comparators[0].func) == "len" and len(b.comparators[0].args) == 1
+                    and isinstance(b.comparators[0].args[0], ast.Name)):
+                return None
+            return b.comparators[0].args[0].id, e.values[2:]
+
+        if which == "forall":
+            if not (isinstance(body, ast.Call) and ast.unparse(body.func) == "implies" and len(body.args) == 2):
+                return None
+            m = bounds(body.args[0])
+            if m is None or m[1]:
+                return None
+            name, inner = m[0], body.args[1]
+        else:
+            m = bounds(body)
+            if m is None or not m[1]:
+                return None
+            name = m[0]
+            inner = m[1][0] if len(m[1]) == 1 else ast.BoolOp(op=ast.And(), values=list(m[1]))
+        xs = st.env.get(name)
+        if not isinstance(xs, tuple) or (xs and xs[0] == "#emptyset"):
+            return None
+        saved = self.spec_mode
+        self.spec_mode = True
+        try:
+            parts = []
+            for j in range(len(xs)):
+                st2 = st.fork()
+                st2.env[i] = j
+                parts.append(self.ops.truthy(self.eval(inner, st2)))
+        finally:
+            self.spec_mode = saved
+        if which == "forall":
+            return SV(smt.And(*parts) if parts else smt.TRUE, BOOL)
+        return SV(smt.Or(*parts) if parts else smt.FALSE, BOOL)
 
     # ------------------------------------------------------------------ dispatch
     def apply(self, f, args, kwargs, st, node=None, want=None):
@@ -369,6 +428,14 @@ class CallMixin:
     # ------------------------------------------------------------------ methods
     def call_method(self, recv, name, args, kwargs, st, node=None, want=None):
         ops = self.ops
+        if isinstance(recv, View):
+            # table[k0]..[kn].m(args)  ==>  contract cell<n>_m(table, k0..kn, args): the proxies are pure views (they re-resolve
+            # the address on every call), so the desugaring drops nothing but the proxy objects themselves
+            mname = f"cell{len(recv.keys)}_{name}"
+            c = self.find_method_contract(recv.obj.cls, mname)
+            if c is None:
+                raise Unsupported(f"no contract for {recv.obj.cls}.{mname}")
+            return self.apply_contract(c, recv.obj, list(recv.keys) + list(args), kwargs, st, None)
         if isinstance(recv, ObjRef):
             c = self.find_method_contract(recv.cls, name, args)
             if c is None:
@@ -513,15 +580,37 @@ class CallMixin:
                 continue
             if n == vararg:
                 spt = ptys[n]
-                t = smt.SeqEmpty(self.tenv.sort(spt.args[0]))
+                parts = []
                 for a in pos:
                     if isinstance(a, StarArg):
-                        sv = self.iter_to_seq(a.value, spt, st)
-                        t = smt.SeqConcat(t, sv.term)
+                        parts.append(self.iter_to_seq(a.value, spt, st).term)
                     else:
-                        t = smt.SeqConcat(t, smt.SeqUnit(self.ops.term(a, spt.args[0])))
+                        parts.append(smt.SeqUnit(self.ops.term(a, spt.args[0])))
                 pos = []
-                env[n] = SV(t, spt)
+                if len(parts) == 1:
+                    env[n] = SV(parts[0], spt)
+                    continue
+                # the concatenation is named, and its elements are related to the parts' elements explicitly
+                # (theorems of the sequence theory, stated so that quantified contracts over indices can use them)
+                whole = self.fresh("starargs", spt, st)
+                t = smt.SeqEmpty(self.tenv.sort(spt.args[0]))
+                for ptm in parts:
+                    t = smt.SeqConcat(t, ptm)
+                st.assume(smt.Eq(whole.term, t))
+                off = smt.Int(0)
+                iv = smt.Var(smt.fresh_name("ci"), "Int")
+                for ptm in parts:
+                    ln = smt.SeqLen(ptm)
+                    st.assume(smt.Ge(ln, smt.Int(0)))
+                    a1 = smt.SeqNth(whole.term, smt.Add(off, iv))
+                    a2 = smt.SeqNth(ptm, iv)
+                    st.assume(smt.Forall([(iv.args[0], "Int")], smt.Implies(smt.And(smt.Le(smt.Int(0), iv), smt.Lt(iv, ln)), smt.Eq(a1, a2)), patterns=((a2,),)))
+                    b1 = smt.SeqNth(whole.term, iv)
+                    b2 = smt.SeqNth(ptm, smt.Sub(iv, off))
+                    st.assume(smt.Forall([(iv.args[0], "Int")], smt.Implies(smt.And(smt.Le(off, iv), smt.Lt(iv, smt.Add(off, ln))), smt.Eq(b1, b2)), patterns=((b1,),)))
+                    off = smt.Add(off, ln)
+                st.assume(smt.Eq(smt.SeqLen(whole.term), off))
+                env[n] = whole
                 continue
             if pos:
                 v = pos.pop(0)
@@ -581,6 +670,19 @@ class CallMixin:
             cst.env[gname] = self.fresh(gname, self.tenv.parse(gt), st)
         saved_old, saved_c = self.old_state, self.c
         short = c.target.split(":")[-1]
+        hooks = getattr(saved_c, "before_call", {}).get(short) if (saved_c is not None and not self.spec_mode) else None
+        if hooks:
+            for pname, pval in env.items():
+                st.env[f"arg_{pname}"] = pval
+            for body in hooks:
+                for g in body:
+                    for nn in ast.walk(g):
+                        nn.lineno = self.cur_line
+                res = self.exec_block(body, st)
+                if len(res) != 1:
+                    raise Unsupported("ghost code must be straight-line")
+                st = res[0][0]
+            cst.heap, cst.pc, cst.writes = st.heap, st.pc, st.writes
         try:
             # preconditions are checked in the caller's vocabulary but resolved with the callee's globals
             self.c = _merge_globals(saved_c, c)
@@ -608,7 +710,11 @@ class CallMixin:
             for e in c.ensures:
                 if e.native_only:
                     continue
-                st.assume(self.eval_clause(e, cst))
+                t_post = self.eval_clause(e, cst)
+                st.assume(t_post)
+                # origin of the hypothesis (used by the prover's "focus" stage: quantified callee postconditions are the bulk of a
+                # path condition and are what ghost cuts summarise)
+                self.E.hyp_origin[str(t_post)] = "callee-post"
             if c.decreases and saved_c is not None and saved_c.target == c.target and not self.spec_mode:
                 # recursive call: the measure decreases and is bounded below
                 dn = parse_expr(c.decreases)
